@@ -600,4 +600,378 @@ theorem rel_run1 (T : Tables) (hC : contOK T = true) (cfg : Cfg) (hc : cfg.one =
   | nil => simpa [run1] using h
   | cons b rest ih => simpa [run1] using ih (rel_step1 T hC cfg hc b h)
 
+/-! ### the end of the text -/
+
+theorem cr_finishCore (T : Tables) (cfg : Cfg) {pre : List Obj} {c c' : Core} (m : Mode) (tok : List Byte)
+    (h : CR pre c c') (hb : m = .tok .int → c.base = c'.base) :
+    CR pre (finishCore T cfg c m tok) (finishCore T cfg c' m tok) := by
+  unfold finishCore
+  have key : ∀ c1 c1' : Core, CR pre c1 c1' → CR pre
+      (match c1.halt with
+      | some _ => c1
+      | none => match c1.stack with
+        | [] => c1
+        | _ :: _ => c1.fail (.incomplete c1.starts.length))
+      (match c1'.halt with
+      | some _ => c1'
+      | none => match c1'.stack with
+        | [] => c1'
+        | _ :: _ => c1'.fail (.incomplete c1'.starts.length)) := by
+    intro c1 c1' h1
+    rw [h1.halt, h1.stack, h1.starts]
+    split
+    · exact h1
+    · split
+      · exact h1
+      · exact cr_fail _ h1
+  apply key
+  rw [h.starts]
+  cases m with
+  | tok t => exact cr_consume T cfg t tok h (fun ht => hb (by rw [ht]))
+  | str m => cases m <;> exact cr_fail _ h
+  | esc => exact cr_fail _ h
+  | rune => exact cr_fail _ h
+  | chrStart => exact cr_pushChar T [] h
+  | plain p => cases p <;> first | exact h | exact cr_fail _ h
+
+theorem finishCore_tok_irrel (T : Tables) (cfg : Cfg) (c : Core) (m : Mode) (tok tok' : List Byte)
+    (hm : ¬ tokLive m) : finishCore T cfg c m tok = finishCore T cfg c m tok' := by
+  unfold finishCore
+  cases m with
+  | tok t => exact absurd trivial hm
+  | plain p => cases p <;> rfl
+  | str m => cases m <;> rfl
+  | _ => rfl
+
+theorem resultOf_shift {pre : List Obj} {c c' : Core} (off n : Nat) (h : CR pre c c') (hg : Good c') :
+    resultOf c (off + n) = (resultOf c' n).shift pre off := by
+  unfold resultOf
+  rw [h.halt]
+  rcases hg with h0 | ⟨e, _, h1⟩
+  · simp only [h0, Result.shift, h.code]
+  · simp only [h1, Result.shift, h.code]
+
+theorem rel_finish1 (T : Tables) (cfg : Cfg) {pre : List Obj} {off : Nat} {s s' : S1}
+    (h : Rel pre off s s') (hg : Good s'.core) :
+    finish1 T cfg s = (finish1 T cfg s').shift pre off := by
+  unfold finish1
+  rw [h.core.halt, h.pos]
+  cases hh : s'.core.halt with
+  | some x => exact resultOf_shift off s'.pos h.core hg
+  | none =>
+    simp only []
+    have hcr : CR pre (finishCore T cfg s.core s.mode s.tok) (finishCore T cfg s'.core s'.mode s'.tok) := by
+      rw [h.mode]
+      by_cases ht : tokLive s'.mode
+      · rw [h.tok ht]
+        exact cr_finishCore T cfg _ _ h.core h.base
+      · rw [finishCore_tok_irrel T cfg s.core s'.mode s.tok s'.tok ht]
+        exact cr_finishCore T cfg _ _ h.core h.base
+    exact resultOf_shift off s'.pos hcr (good_finishCore T cfg _ _ hg)
+
+/-! ### emission: how the first object gets into `code` -/
+
+/-- nothing was emitted, or exactly one object was emitted at top level and no form is open -/
+def Emit (c d : Core) : Prop :=
+  d.code = c.code ∨ ∃ o, d.code = c.code ++ [o] ∧ d.stack = [] ∧ d.starts = []
+
+theorem inv_starts_nil {c : Core} (h : Inv c) (hs : c.stack = []) : c.starts = [] := by
+  cases hst : c.starts with
+  | nil => rfl
+  | cons i is =>
+    exfalso
+    have := inv_lt h (i := i) (by simp [hst])
+    simp [hs] at this
+
+theorem emit_fail (c : Core) (e : Err) : Emit c (c.fail e) := Or.inl rfl
+
+theorem emit_push {c : Core} (o : Obj) (h : Inv c) : Emit c (c.push o) := by
+  unfold Core.push
+  split
+  · rename_i hs; exact Or.inr ⟨o, rfl, hs, inv_starts_nil h hs⟩
+  · exact Or.inl rfl
+
+theorem emit_place (c : Core) (start : Nat) (obj : Obj) : Emit c (c.place start obj) := by
+  unfold Core.place
+  split
+  · exact Or.inl rfl
+  · exact Or.inr ⟨obj, rfl, rfl, rfl⟩
+
+theorem emit_closeList (c : Core) : Emit c (closeList c) := by
+  unfold closeList
+  repeat' split
+  all_goals try simp only []
+  all_goals repeat' split
+  all_goals first | exact emit_place _ _ _ | exact emit_fail _ _
+
+theorem closeList_no_starts {c : Core} (h : c.starts = []) : (closeList c).halt = some (.err .parse) := by
+  unfold closeList
+  simp [h, Core.fail]
+
+theorem emit_pushToken (cfg : Cfg) {c : Core} (tok : List Byte) (h : Inv c) : Emit c (pushToken cfg c tok) := by
+  unfold pushToken
+  split
+  · exact emit_push _ h
+  · split
+    · exact emit_push _ h
+    · split
+      · rename_i m htop
+        split
+        · rename_i x hx
+          refine Or.inr ⟨_, rfl, rfl, ?_⟩
+          cases hst : c.starts with
+          | nil => rfl
+          | cons i is =>
+            exfalso
+            have hi : i ∈ c.starts := by simp [hst]
+            obtain ⟨k, hk⟩ := h.2 i hi
+            have hlt := inv_lt h hi
+            simp [hx] at hlt
+            subst hlt
+            simp [hx] at hk htop
+            rw [hk] at htop; cases htop
+        · exact Or.inl rfl
+      · exact emit_push _ h
+
+theorem emit_pushInteger {c : Core} (tok : List Byte) (h : Inv c) : Emit c (pushInteger c tok) := by
+  unfold pushInteger
+  repeat' split
+  all_goals try simp only []
+  all_goals repeat' split
+  all_goals first | exact emit_push _ h | exact emit_fail _ _
+
+theorem emit_pushChar (T : Tables) {c : Core} (tok : List Byte) (h : Inv c) : Emit c (pushChar T c tok) := by
+  unfold pushChar
+  repeat' split
+  all_goals try simp only []
+  all_goals repeat' split
+  all_goals first | exact emit_push _ h | exact emit_fail _ _
+
+theorem emit_consume (T : Tables) (cfg : Cfg) (t : TMode) {c : Core} (tok : List Byte) (h : Inv c) :
+    Emit c (consume T cfg t c tok) := by
+  cases t
+  · exact emit_pushToken cfg tok h
+  · exact emit_pushChar T tok h
+  · exact emit_pushInteger tok h
+  · exact emit_push _ h
+
+theorem plainAct_code (T : Tables) (c : Core) (a : Action) (b : Byte) (h : a ≠ .closeParen) :
+    (plainAct T c a b).code = c.code := by
+  unfold plainAct
+  cases a <;> simp only []
+  all_goals first
+    | rfl
+    | exact absurd rfl h
+    | (repeat' split) <;> rfl
+
+/-- a byte in a plain mode leaves `code` alone unless it is a `closeParen` -/
+theorem plainStep1_code (T : Tables) (s : S1) (p : PMode) (b : Byte) :
+    (plainStep1 T s p b).core.code = s.core.code ∨
+    (lookup? T (.plain p) b = some .closeParen ∧
+      plainStep1 T s p b = { s with core := closeList s.core, mode := .plain p }) := by
+  unfold plainStep1
+  cases hl : lookup? T (.plain p) b with
+  | none => exact Or.inl rfl
+  | some a =>
+    simp only []
+    by_cases ha : a = .closeParen
+    · subst ha
+      exact Or.inr ⟨rfl, rfl⟩
+    · left
+      cases hk : kindOf a with
+      | core => exact plainAct_code T _ a b ha
+      | startTok => rfl
+      | commaAt =>
+        simp only []
+        split
+        · rename_i c hc
+          unfold commaAtTop at hc
+          split at hc <;> cases hc
+          rfl
+        · rfl
+      | startAfter t base =>
+        simp only [setBase]
+        split <;> rfl
+      | startStr m => rfl
+      | startChar => rfl
+      | raise => rfl
+      | bad => rfl
+
+structure FreshAt (o : Obj) (x : S1) : Prop where
+  mode : x.mode = .plain .value
+  stack : x.core.stack = []
+  starts : x.core.starts = []
+  code : x.core.code = [o]
+  halt : x.core.halt = none
+
+theorem fresh_rel {o : Obj} {x : S1} (h : FreshAt o x) : Rel [o] x.pos x init1 := by
+  refine ⟨⟨h.stack, h.starts, h.halt, by simp [h.code, init1]⟩, h.mode, by simp [init1], ?_, ?_, ?_, ?_, ?_⟩
+  · intro ht; cases ht
+  · intro ht; cases ht
+  · intro ht; cases ht
+  · intro ht; cases ht
+  · intro ht; cases ht
+
+theorem emit_one {c d : Core} {o : Obj} {tl : List Obj} (he : Emit c d) (hcode : c.code = [])
+    (hc : d.code = o :: tl) : tl = [] ∧ d.stack = [] ∧ d.starts = [] ∧ d.code = [o] := by
+  rcases he with h | ⟨o', h1, h2, h3⟩
+  · rw [h, hcode] at hc; cases hc
+  · rw [hcode] at h1
+    simp only [List.nil_append] at h1
+    rw [h1] at hc
+    cases hc
+    exact ⟨rfl, h2, h3, h1⟩
+
+theorem tokStep1_cases (T : Tables) (cfg : Cfg) (s : S1) (t : TMode) (b : Byte) :
+    (tokStep1 T cfg s t b).core.code = s.core.code ∨
+    (lookup? T (.tok t) b = some (doneOf t) ∧
+      ((tokStep1 T cfg s t b).core.halt ≠ none ∨
+       ((consume T cfg t s.core s.tok).halt = none ∧
+        tokStep1 T cfg s t b =
+          plainStep1 T { s with core := consume T cfg t s.core s.tok, mode := .plain .value, tok := [] } .value b))) := by
+  unfold tokStep1
+  cases hl : lookup? T (.tok t) b with
+  | none => exact Or.inl rfl
+  | some a =>
+    simp only []
+    by_cases h1 : a = .skipByte
+    · rw [if_pos h1]; exact Or.inl rfl
+    · rw [if_neg h1]
+      by_cases h2 : a = doneOf t
+      · rw [if_pos h2]
+        right
+        refine ⟨by rw [h2], ?_⟩
+        cases hh : (consume T cfg t s.core s.tok).halt with
+        | some x => left; simp [hh]
+        | none => right; exact ⟨rfl, by simp⟩
+      · rw [if_neg h2]
+        left
+        split <;> rfl
+
+theorem strStep1_cases (T : Tables) (s : S1) (m : SMode) (b : Byte) :
+    (strStep1 T s m b).core.code = s.core.code ∨
+    ∃ a obj, lookup? T (.str m) b = some a ∧ (a = .stringDone ∨ a = .pipeDone) ∧
+      strStep1 T s m b = { s with core := s.core.push obj, mode := .plain .value, sbuf := [] } := by
+  unfold strStep1
+  cases hl : lookup? T (.str m) b with
+  | none => exact Or.inl rfl
+  | some a =>
+    simp only []
+    cases a <;> simp only []
+    all_goals first
+      | exact Or.inr ⟨_, _, rfl, Or.inl rfl, rfl⟩
+      | exact Or.inr ⟨_, _, rfl, Or.inr rfl, rfl⟩
+      | exact Or.inl rfl
+      | exact Or.inl trivial
+
+theorem escStep1_code (T : Tables) (s : S1) (b : Byte) : (escStep1 T s b).core.code = s.core.code := by
+  unfold escStep1
+  repeat' split
+  all_goals rfl
+
+theorem runeStep1_code (T : Tables) (s : S1) (b : Byte) : (runeStep1 T s b).core.code = s.core.code := by
+  unfold runeStep1
+  repeat' split
+  all_goals rfl
+
+theorem chrStartStep1_code (T : Tables) (s : S1) (b : Byte) : (chrStartStep1 T s b).core.code = s.core.code := by
+  unfold chrStartStep1
+  repeat' split
+  all_goals rfl
+
+/-- **How the first object is emitted.** From a live state with nothing emitted yet, a byte after
+    which `code` is not empty emitted exactly one object, and either the byte is one of `)` `"` `|`
+    and the reader is back in the state of a fresh reader (but for `code` and scratch fields), or it
+    is not and the reader was in that state right before this byte was looked at in `valueMode`
+    (the `goto Retry` of the byte that ended a token). -/
+theorem emit_body1 (T : Tables) (hC : contOK T = true) (cfg : Cfg) (s : S1) (b : Byte)
+    (hinv : Inv s.core) (hcode : s.core.code = [])
+    (hB : (body1 T cfg s b).core.halt = none) (o : Obj) (tl : List Obj)
+    (hc : (body1 T cfg s b).core.code = o :: tl) :
+    tl = [] ∧ ((isCloser b = true ∧ FreshAt o (body1 T cfg s b)) ∨
+      (isCloser b = false ∧ ∃ s0 : S1, FreshAt o s0 ∧ s0.pos = s.pos ∧
+        body1 T cfg s b = plainStep1 T s0 .value b)) := by
+  unfold body1 at hB hc ⊢
+  cases hm : s.mode with
+  | plain p =>
+    simp only [hm] at hB hc ⊢
+    rcases plainStep1_code T s p b with h1 | ⟨hl, h1⟩
+    · rw [h1, hcode] at hc; cases hc
+    · rw [h1] at hB hc ⊢
+      simp only [] at hB hc
+      obtain ⟨hp, hcl⟩ := (cont_plain T hC p b _ hl).2 rfl
+      obtain ⟨e1, e2, e3, e4⟩ := emit_one (emit_closeList s.core) hcode hc
+      exact ⟨e1, Or.inl ⟨hcl, ⟨by simp [hp], e2, e3, e4, hB⟩⟩⟩
+  | tok t =>
+    simp only [hm] at hB hc ⊢
+    rcases tokStep1_cases T cfg s t b with h1 | ⟨hl, h1 | ⟨hlive0, hEq⟩⟩
+    · rw [h1, hcode] at hc; cases hc
+    · exact absurd hB h1
+    · rw [hEq] at hB hc ⊢
+      generalize hs0 : ({ s with core := consume T cfg t s.core s.tok, mode := .plain .value, tok := [] } : S1) = s0
+        at hB hc ⊢
+      have hs0core : s0.core = consume T cfg t s.core s.tok := by rw [← hs0]
+      have hs0mode : s0.mode = .plain .value := by rw [← hs0]
+      have hs0pos : s0.pos = s.pos := by rw [← hs0]
+      have hem : Emit s.core s0.core := by rw [hs0core]; exact emit_consume T cfg t s.tok hinv
+      have hlive0' : s0.core.halt = none := by rw [hs0core]; exact hlive0
+      rcases hem with hsame | ⟨o', hcode0, hst, hss⟩
+      · -- the token went onto the stack; this byte closed the outermost list
+        have hcode0 : s0.core.code = [] := by rw [hsame, hcode]
+        rcases plainStep1_code T s0 .value b with h2 | ⟨hlv, h2⟩
+        · rw [h2, hcode0] at hc; cases hc
+        · rw [h2] at hB hc ⊢
+          simp only [] at hB hc
+          obtain ⟨_, hcl⟩ := (cont_plain T hC .value b _ hlv).2 rfl
+          obtain ⟨e1, e2, e3, e4⟩ := emit_one (emit_closeList s0.core) hcode0 hc
+          exact ⟨e1, Or.inl ⟨hcl, ⟨rfl, e2, e3, e4, hB⟩⟩⟩
+      · -- the token itself is the form
+        rw [hcode] at hcode0
+        simp only [List.nil_append] at hcode0
+        rcases plainStep1_code T s0 .value b with h2 | ⟨hlv, h2⟩
+        · rw [h2, hcode0] at hc
+          cases hc
+          refine ⟨rfl, ?_⟩
+          by_cases hcl : isCloser b = true
+          · exfalso
+            cases hv : lookup? T (.plain .value) b with
+            | none =>
+              have : plainStep1 T s0 .value b = s0.fail .table := by
+                unfold plainStep1; simp only [hv]
+              rw [this] at hB
+              simp [S1.fail, Core.fail] at hB
+            | some av =>
+              rcases cont_tokdone T hC t b hl hcl av hv with ha | ha
+              · have : (plainStep1 T s0 .value b).core = closeList s0.core := by
+                  unfold plainStep1; simp only [hv, ha, kindOf, plainAct]
+                rw [this, closeList_no_starts hss] at hB
+                cases hB
+              · have : plainStep1 T s0 .value b = s0.fail .parse := by
+                  unfold plainStep1; simp only [hv, ha, kindOf]
+                rw [this] at hB
+                simp [S1.fail, Core.fail] at hB
+          · exact Or.inr ⟨by simpa using hcl, s0, ⟨hs0mode, hst, hss, hcode0, hlive0'⟩, hs0pos, rfl⟩
+        · rw [h2] at hB
+          simp only [] at hB
+          rw [closeList_no_starts hss] at hB
+          cases hB
+  | str m =>
+    simp only [hm] at hB hc ⊢
+    rcases strStep1_cases T s m b with h1 | ⟨a, obj, hl, ha, h1⟩
+    · rw [h1, hcode] at hc; cases hc
+    · rw [h1] at hB hc ⊢
+      simp only [] at hB hc
+      have hcl := cont_strdone T hC m b a hl ha
+      obtain ⟨e1, e2, e3, e4⟩ := emit_one (emit_push obj hinv) hcode hc
+      exact ⟨e1, Or.inl ⟨hcl, ⟨rfl, e2, e3, e4, hB⟩⟩⟩
+  | esc =>
+    simp only [hm] at hc
+    rw [escStep1_code, hcode] at hc; cases hc
+  | rune =>
+    simp only [hm] at hc
+    rw [runeStep1_code, hcode] at hc; cases hc
+  | chrStart =>
+    simp only [hm] at hc
+    rw [chrStartStep1_code, hcode] at hc; cases hc
+
 end SlipVerif.Reader
